@@ -89,9 +89,42 @@ def check_readd(case):
     return res
 
 
+def check_mux(case):
+    """two or three supplies behind a PMux whose connected input differs between the phases (inputs active in phase a only): the rows of each phase
+    -- incl. the Domain column and the Subsystem / total rows -- are those of the single-phase analysis, in either order of the phases."""
+    from ..muxsys import mux_spec
+    res = Res()
+    spec = mux_spec([tuple(x) for x in case["inputs"]], case["pal"], case["rs_list"], below="std")
+    if case.get("swap"):   # the phase in which the first inputs are live comes LAST
+        spec["phases"] = dict(reversed(list(spec["phases"].items())))
+    s, obs = phys.solve_and_check(res, spec, WANT + ("C07",), ta=-15.0)
+    if obs is None:
+        return res
+    df, _ = quiet_call(s.solve, ta=-15.0, energy=True)
+    for ph in spec["phases"]:
+        try:
+            d1, _ = quiet_call(s.solve, phase=ph, ta=-15.0, energy=True)
+            sub = df[df["Phase"] == ph].reset_index(drop=True)
+            sub = sub[[c for c in sub.columns if any(x != "" for x in sub[c].tolist())]]
+            d1 = d1[[c for c in d1.columns if any(x != "" for x in d1[c].tolist())]]
+            same = sorted(d1.columns) == sorted(sub.columns) and len(d1) == len(sub) and all(
+                cells_equal(a, b) for col in d1.columns for a, b in zip(d1[col].tolist(), sub[col].tolist()))
+            if not same:
+                bad = [col for col in d1.columns if col in sub.columns and not all(cells_equal(a, b) for a, b in zip(d1[col].tolist(), sub[col].tolist()))]
+                res.v(("C06.single-phase-rows", "mux"), "solve(phase=%r) differs from the rows of that phase in columns %s" % (ph, bad[:4]))
+        except Exception as e:
+            res.v(("C06.single-phase-exc", type(e).__name__), "%s" % e)
+        res.stats["transitions"] += 1
+    res.nontrivial = 1
+    res.classes.add("mux")
+    return res
+
+
 def check_case(case):
     if case.get("fam") == "readd":
         return check_readd(case)
+    if case.get("fam") == "mux":
+        return check_mux(case)
     res = Res()
     phases = PH3 if case.get("ph3") else PH2
     base = spec_from_forest(case["f"], case["pal"], case.get("pol", 1), case["srs"])
@@ -279,6 +312,12 @@ def gen_cases(tier):
                             yield dict(f=f, pal=pal, srs=0.37, assign=list(assign), ph3=ph3, rename={"a": "tx burst", "b": "tx"})
                     if any(a is not None and "zz" in a for a in assign):  # configured BEFORE the system phases exist
                         yield dict(f=f, pal=pal, srs=0.37, assign=list(assign), ph3=ph3, pc_first=True)
+    from ..muxsys import INPUT_OPTS
+    for k in (2, 3):
+        for inputs in itertools.product(INPUT_OPTS if k == 2 else INPUT_OPTS[::2], repeat=k):
+            if any(st.startswith("inact") for _, st in inputs):
+                for swap in (False, True):
+                    yield dict(fam="mux", inputs=[list(x) for x in inputs], pal=pal, rs_list=(k == 3), swap=swap)
     yield from gen_readd(tier, pal)
 
 
@@ -309,5 +348,6 @@ def main(tier):
         rule="E1-phase: every tree (mid alphabet n<=2; deep alphabet n=3; thorough adds mid n=3, 3 phases, deep n=4) x the full product over components of "
              "{no configuration} + {every non-empty subset of phases} (two-ended subsets only for the larger trees); per phase: C01/C02/C04 row oracles with the phase "
              "behaviour of the statement, solve(phase=p) cell-for-cell equal, unknown phase rejected, phase-free projection differential; plus: a phase-configured subtree deleted and re-added without configuration must behave as never configured. "
+             "Plus 2-/3-input PMux systems whose connected input changes between the phases, phases in both orders: solve(phase=p) equals the rows of p incl. Domain and Subsystem rows. "
              "non-trivial = some component sleeps in some phase while >=2 components are configured.",
         assumptions=["one palette per run (VERIF_SEED)", "positive polarity", "Rectifier/RLoss/VLoss carry no phase configuration"])
